@@ -31,7 +31,21 @@ Support(p, args) ==
   IN  {c \in cands : LET r == Exec(p, args, c, FALSE) IN r.err = "none" /\ DOMAIN r.lps = DOMAIN c}
 
 F(c, bad) == IF bad THEN {c} ELSE {}
-Clauses(ev) ==
+
+\* C07: a regenerated choice is redrawn from its prior given the CURRENT values of its parents.
+\* Event: base trace (choices), one selected leaf address a, counts of the new value at a over N keys.
+RegenClauses(ev) ==
+  LET p    == Entry(ev.pid).p
+      base == Fn(ev.base)
+      a    == ev.addr
+      l2(v) == L2Term(Exec(p, ev.args, [base EXCEPT ![a] = v], FALSE).lps[a])     \* log2 P(a = v | parents as in the base trace)
+      cnt(v) == ev.counts[v + 1]
+  IN  F("regen.prior", \E v \in 0..2 : AbsI(cnt(v) * Pow2(KP) - ev.n * Pow2(KP + l2(v))) > ev.bound * Pow2(KP))
+      \cup F("regen.total", cnt(0) + cnt(1) + cnt(2) # ev.n)
+      \cup F("regen.others", ~ev.others_unchanged)
+      \cup F("regen.weight", ~ev.weight_ok)
+
+SimClauses(ev) ==
   LET p    == Entry(ev.pid).p
       obs  == [i \in 1..Len(ev.cells) |-> [c |-> Fn(ev.cells[i].choices), n |-> ev.cells[i].count]]
       sup  == Support(p, ev.args)
@@ -45,11 +59,13 @@ Clauses(ev) ==
       \cup F("det", ~ev.det)
       \cup F("args", ev.obsargs # ev.args)
 
+Clauses(ev) == IF ev.kind = "regen" THEN RegenClauses(ev) ELSE SimClauses(ev)
+
 VARIABLES l, fails
 TInit == l = 1 /\ fails = <<>>
 TNext == /\ l <= Len(Log) /\ l' = l + 1
          /\ LET cs == Clauses(Log[l]) IN
-            fails' = IF cs = {} THEN fails ELSE Append(fails, [tid |-> Log[l].tid, seq |-> 0, clauses |-> SetToSeq(cs), nsupport |-> Cardinality(Support(Entry(Log[l].pid).p, Log[l].args))])
+            fails' = IF cs = {} THEN fails ELSE Append(fails, [tid |-> Log[l].tid, seq |-> 0, clauses |-> SetToSeq(cs)])
 TSpec == TInit /\ [][TNext]_<<l, fails>>
 Report == l = Len(Log) + 1 => PrintT(<<"VERDICT", ToJson([n |-> Len(Log), fails |-> fails])>>)
 =============================================================================
